@@ -38,6 +38,23 @@ H3 == << Store(2), Mint("u1", 2),
          Step(Call("u1", <<Send("u2", 1), Exec("c1_0", Eth(5))>>), <<>>),     \* overdraw: whole call fails
          Step([k |-> "next_block"], <<>>),
          Step([k |-> "sudo_wasm", c |-> "c1_0", via |-> "wasm_sudo"], <<W1>>) >>
+(* staking in composition (configuration MC_Twin_stake: the real staking and distribution keepers): a user and a
+   contract delegate, the contract undelegates, time passes by set_block, rewards are withdrawn, the validator is slashed *)
+ModsStake == [s \in {"custom", "staking", "distribution", "ibc", "gov", "stargate", "any"} |->
+                IF s \in {"staking", "distribution"} THEN "real" ELSE "fail"]
+Stake(op, v, n) == [k |-> "stake", op |-> op, v |-> v, v2 |-> "", coin |-> <<"eth", n>>]
+H4 == << Store(1), Mint("u1", 9),
+         Step(Call("u1", <<Inst(1, "L1", "u1", Eth(4), "")>>), <<W1>>),
+         Step(Call("u1", <<Stake("delegate", "v1", 2)>>), <<>>),
+         Step(Call("u1", <<Exec("c1_0", <<>>)>>),
+              << Beh(FALSE, << <<"k", "v2">> >>, <<>>, <<>>, NoData,
+                     <<Sub(Stake("delegate", "v1", 2), 7, "p1", "success"), Sub(Stake("undelegate", "v1", 1), 8, "", "never"),
+                       Sub(Stake("delegate", "v2", 9), 9, "", "error")>>),
+                 W1, W1 >>),
+         Step([k |-> "advance", dt |-> 10, via |-> "set"], <<>>),
+         Step(Call("u1", <<[k |-> "distr", op |-> "withdraw", v |-> "v1", to |-> ""]>>), <<>>),
+         Step([k |-> "sudo_slash", v |-> "v1", p |-> "all"], <<>>) >>
+HistS == {H4}
 HistQ == {H1, H3}
 HistT == {H1, H2, H3}
 =============================================================================
